@@ -1,9 +1,12 @@
+import PallasVerif.Model.Value
 /-
   The machine arithmetic of phase-1 validation that is not part of the rule models of C34–C37
   (`Model/Value`, `Model/FeeSize`, `Model/ExUnits`, `Model/Witness`, `Model/ValidateTxs`), transcribed with an explicit
   `panic` arm at every operation that the dev profile checks: collateral percentage (`check_collaterals_assets`, in
   `u128` after the C33 `fix:`), minimum lovelace per output (`compute_min_lovelace` of each era, unchecked `u64`),
-  Shelley-MA deposits (`get_consumed` / `get_produced`, unchecked `u64`), the MIR total (`check_mir`, checked).
+  Shelley-MA deposits (`get_consumed` / `get_produced`, unchecked `u64`), the MIR total (`check_mir`, checked),
+  and the collateral balance of the three Plutus eras: `lovelace_diff_or_fail` / `conway_lovelace_diff_or_fail` (every arm,
+  the `f - s` as a panic site of its own) and `check_collaterals_assets` of Alonzo, Babbage and Conway around it.
 -/
 namespace PallasVerif.PhaseOneArith
 
@@ -56,5 +59,83 @@ def mirWithinPot (pot : Nat) (amounts : List Nat) : Res :=
   match checkedTotal 0 amounts with
   | none => .rejected
   | some t => if t > pot then .rejected else .ok
+
+/-! ## Collateral balance -/
+
+/-- `f - s` on `u64`: the dev profile panics when it underflows -/
+def subU64 (f s : Int) : Value.R Int := if f < s then .panic else .ok (f - s)
+
+/-- `lovelace_diff_or_fail` and `conway_lovelace_diff_or_fail` (same four arms; `multi_assets_are_equal` /
+    `conway_multi_assets_are_equal`): `Ok(f - s)` under `if f >= s && ..`, `Err(err)` otherwise. The subtraction is written
+    as `subU64`, not as the guarded difference, so that totality is a theorem about the guard. -/
+def lovelaceDiffOrFail : Value.Value → Value.Value → Value.R Int
+  | .coin f, .coin s => if f ≥ s then subU64 f s else .err
+  | .coin _, .multi _ _ => .err
+  | .multi f fma, .coin s => if f ≥ s ∧ fma.isEmpty = true then subU64 f s else .err
+  | .multi f fma, .multi s sma => if f ≥ s ∧ Value.multiAssetsAreEqual fma sma = true then subU64 f s else .err
+
+inductive CollRes where
+  | ok | negativeValue | nonLovelace | minLovelace | annotation | panic
+  deriving DecidableEq, Repr
+
+def coinV : Value.Value → Int
+  | .coin c => c
+  | .multi c _ => c
+
+def hasAssets : Value.Value → Bool
+  | .coin _ => false
+  | .multi _ m => !m.isEmpty
+
+/-- Alonzo `check_collaterals_assets`: every collateral input alone covers the percentage and carries no assets -/
+def collateralAlonzo (fee percentage : Nat) : List Value.Value → CollRes
+  | [] => .ok
+  | v :: rest =>
+    match collateralEnough (coinV v).toNat fee percentage with
+    | .panic => .panic
+    | .rejected => .minLovelace
+    | .ok => if hasAssets v then .nonLovelace else collateralAlonzo fee percentage rest
+
+/-- Conway, `TransactionOutput::Legacy` collateral return: quantities that are not a `PositiveCoin` are left out -/
+def dropZeroAssets (m : Value.MA) : Value.MA := m.map (fun (p, as) => (p, as.filter (fun (_, a) => a != 0)))
+
+/-- `MultiEraValue::into_conway` of an Alonzo-form UTxO value (what `val_from_multi_era_output` hands the Conway rule):
+    zero quantities, then empty policies are left out; nothing left = the `Coin` variant -/
+def conwayOfLegacy : Value.Value → Value.Value
+  | .multi c m =>
+    let m' := (dropZeroAssets m).filter (fun (_, as) => !as.isEmpty)
+    if m'.isEmpty then .coin c else .multi c m'
+  | v => v
+
+def returnValue (conway legacy : Bool) : Option Value.Value → Value.Value
+  | none => .coin 0
+  | some (.multi c m) => if conway && legacy then .multi c (dropZeroAssets m) else .multi c m
+  | some v => v
+
+/-- Babbage / Conway `check_collaterals_assets`: sum of the collateral inputs (Babbage from `empty_value()`, Conway from
+    `collaterals.first().unwrap()`), minus the collateral return through `lovelace_diff_or_fail`, percentage, annotation -/
+def collateralSum (conway : Bool) (ins : List Value.Value) : Value.R Value.Value :=
+  if conway then (match ins with
+    | [] => .panic                     -- `first().unwrap()`; `check_collaterals_number` has rejected the empty list before
+    | i :: is => Value.conwaySumFrom i is)
+  else Value.sumFrom Value.emptyValue ins
+
+/-- `check_collaterals_assets` of Babbage (`conway = false`) and Conway -/
+def collateralBalance (conway legacyReturn : Bool) (ins : List Value.Value) (ret : Option Value.Value)
+    (fee percentage : Nat) (total : Option Nat) : CollRes :=
+  match collateralSum conway ins with
+  | .panic => .panic
+  | .err => .negativeValue
+  | .ok input =>
+    match lovelaceDiffOrFail input (returnValue conway legacyReturn ret) with
+    | .panic => .panic
+    | .err => .nonLovelace
+    | .ok paid =>
+      match collateralEnough paid.toNat fee percentage with
+      | .panic => .panic
+      | .rejected => .minLovelace
+      | .ok =>
+        match total with
+        | some t => if paid ≠ (t : Int) then .annotation else .ok
+        | none => .ok
 
 end PallasVerif.PhaseOneArith
